@@ -9,3 +9,5 @@ pub mod util;
 
 #[cfg(kani)]
 mod fungible;
+#[cfg(kani)]
+mod handshake;
